@@ -89,27 +89,27 @@ static void nearestPredicates(const Sh& s, const ContactGeometry* geo, const std
     const double L = s.scale();
     std::vector<double> hv = {p[0], p[1], p[2], s.a, s.b, s.c};
     vh::Rng g(hashDoubles(hv, 34));
-    // (1) on the surface
+    // (1) on the surface (a non-finite point fails here and nothing else is evaluated for it)
     vh::P("on_surface", key(s, "findNearestPoint", cls, "on_surface"), finite3(pt) ? std::abs(s.f(pt)) / L : NAN, surfTol);
+    if (!finite3(pt)) return;
     // (2) no sampled surface point is nearer; and agrees with the exact distance where known
     double d = (p - pt).norm(), best = INFINITY;
     for (int i = 0; i < 600; ++i) best = std::min(best, (p - s.sample(g, p)).norm());
-    // local samples around the returned point's direction: project perturbed copies of exact-ish candidates
-    vh::P("minimal_sampled", key(s, "findNearestPoint", cls, "minimal"), finite3(pt) ? (d - best) / L : NAN, 1e-9);
+    vh::P("minimal_sampled", key(s, "findNearestPoint", cls, "minimal"), (d - best) / L, 1e-9);
     double ex = s.exactDist(p);
     if (std::isfinite(ex))
-        vh::P("minimal_exact", key(s, "findNearestPoint", cls, "exact_distance"), finite3(pt) ? std::abs(d - ex) / L : NAN, surfTol);
+        vh::P("minimal_exact", key(s, "findNearestPoint", cls, "exact_distance"), std::abs(d - ex) / L, surfTol);
     // (3) inside flag = sign of the implicit function (outside a band around the surface)
     if (haveFlag && std::abs(s.f(p)) > 1e-9 * L)
         vh::P("inside_flag", key(s, "findNearestPoint", cls, "inside_flag"), (inside == (s.f(p) > 0)) ? 0 : 1, 0);
     // (4) unit normal, parallel to the outward gradient direction at the returned point
     if (haveNormal) {
         vh::P("unit_normal", key(s, "findNearestPoint", cls, "unit_normal"), finite3(n) ? std::abs(n.norm() - 1) : NAN, 1e-12);
-        if (geo && s.k != BOX && finite3(pt)) {
+        if (geo && s.k != BOX && finite3(n)) {
             Vec3 gr = geo->calcSurfaceGradient(pt);
             double gm = gr.norm();
-            vh::P("normal_par_gradient", key(s, "findNearestPoint", cls, "normal_direction"),
-                  (finite3(n) && gm > 0) ? (n + gr / gm).norm() : NAN, 1e-7);
+            if (gm > 0)
+                vh::P("normal_par_gradient", key(s, "findNearestPoint", cls, "normal_direction"), (n + gr / gm).norm(), 1e-7);
         }
     }
 }
@@ -129,8 +129,8 @@ static void fdPredicates(const Sh& s, const ContactGeometry& geo, const std::str
         Vec3 gd = (geo.calcSurfaceGradient(p + e) - geo.calcSurfaceGradient(p - e)) / (2*h);
         for (int j = 0; j < 3; ++j) { eh = std::max(eh, std::abs(gd[j] - H(j, i))); es = std::max(es, std::abs(H(i, j) - H(j, i))); }
     }
-    vh::P("gradient_fd", key(s, "calcSurfaceGradient", cls, "finite_difference"), eg / gscale, 1e-6);
-    vh::P("hessian_fd", key(s, "calcSurfaceHessian", cls, "finite_difference"), eh / hscale, 1e-6);
+    vh::P("gradient_fd", key(s, "calcSurfaceGradient", cls, "finite_difference"), eg / gscale, 1e-5);
+    vh::P("hessian_fd", key(s, "calcSurfaceHessian", cls, "finite_difference"), eh / hscale, 1e-5);
     vh::P("hessian_symmetric", key(s, "calcSurfaceHessian", cls, "symmetric"), es / hscale, 1e-12);
     // the sign of the value agrees with the geometry (positive inside)
     double fv = geo.calcSurfaceValue(p);
@@ -145,7 +145,7 @@ static void fdPredicates(const Sh& s, const ContactGeometry& geo, const std::str
         x[i] = p[i] + h; double fp = F.calcValue(x); x[i] = p[i] - h; double fm = F.calcValue(x);
         egF = std::max(egF, std::abs((fp - fm) / (2*h) - gi));
     }
-    vh::P("implicit_gradient_fd", key(s, "getImplicitFunction", cls, "finite_difference"), egF / gsF, 1e-6);
+    vh::P("implicit_gradient_fd", key(s, "getImplicitFunction", cls, "finite_difference"), egF / gsF, 1e-5);
 }
 
 static void emitVal(const char* fn, const ContactGeometry& geo, const Vec3& p) {
@@ -168,15 +168,17 @@ static void rayPredicates(const Sh& s, const std::string& cls, const Vec3& o, co
     const double L = s.scale();
     double fo = s.f(o);
     if (hit) {
-        Vec3 hp = o + dist * Vec3(d);
-        vh::P("ray_dist_nonneg", key(s, "intersectsRay", cls, "distance_nonneg"), std::isfinite(dist) ? -dist / L : NAN, 1e-12);
-        vh::P("ray_hit_on_surface", key(s, "intersectsRay", cls, "hit_on_surface"), std::isfinite(dist) ? std::abs(s.f(hp)) / L : NAN, 1e-9);
-        vh::P("ray_unit_normal", key(s, "intersectsRay", cls, "unit_normal"), finite3(Vec3(n)) ? std::abs(Vec3(n).norm() - 1) : NAN, 1e-12);
         // first hit: the implicit function keeps the sign it has at the origin strictly before the hit
+        // (a non-finite distance fails here and nothing else is evaluated for it)
         double bad = 0;
         if (std::isfinite(dist) && std::abs(fo) > 1e-9 * L)
             for (int i = 1; i < 400; ++i) { double t = dist * i / 400.0 * (1 - 1e-9); double fv = s.f(o + t * Vec3(d)); if ((fv > 0) != (fo > 0) && std::abs(fv) > 1e-9 * L) bad = 1; }
         vh::P("ray_first_hit", key(s, "intersectsRay", cls, "first_hit"), std::isfinite(dist) ? bad : NAN, 0);
+        if (!std::isfinite(dist)) return;
+        Vec3 hp = o + dist * Vec3(d);
+        vh::P("ray_dist_nonneg", key(s, "intersectsRay", cls, "distance_nonneg"), -dist / L, 1e-12);
+        vh::P("ray_hit_on_surface", key(s, "intersectsRay", cls, "hit_on_surface"), std::abs(s.f(hp)) / L, 1e-9);
+        vh::P("ray_unit_normal", key(s, "intersectsRay", cls, "unit_normal"), finite3(Vec3(n)) ? std::abs(Vec3(n).norm() - 1) : NAN, 1e-12);
     } else {
         // reported miss: the ray must not cross the surface (sampled far out)
         double bad = 0;
@@ -251,12 +253,16 @@ static void caseNearest(Kind k, const std::string& cls, const std::vector<double
         case HS:  fn = "hs.nearest"; p = V(v, 0); geo.reset(new ContactGeometry::HalfSpace()); break;
         case SPH: fn = "sph.nearest"; s.a = v[0]; p = V(v, 1); geo.reset(new ContactGeometry::Sphere(s.a)); break;
         case CYL: fn = "cyl.nearest"; s.a = v[0]; p = V(v, 1); geo.reset(new ContactGeometry::Cylinder(s.a)); break;
-        case ELL: fn = "ell.nearest"; s.a = v[0]; s.b = v[1]; s.c = v[2]; p = V(v, 3); geo.reset(new ContactGeometry::Ellipsoid(Vec3(s.a, s.b, s.c))); surfTol = 1e-7; break;
+        case ELL: fn = "ell.nearest"; s.a = v[0]; s.b = v[1]; s.c = v[2]; p = V(v, 3); geo.reset(new ContactGeometry::Ellipsoid(Vec3(s.a, s.b, s.c)));
+                  // accuracy of the vendored root finder: simple largest root 1e-13 (generic); coincident roots when a query
+                  // coordinate is 0 (measured 3e-7) or radii coincide (measured 1.4e-6); realistic defects give >= 1e-3
+                  surfTol = cls == "generic" ? 1e-7 : (cls.find("radii") != std::string::npos ? 1e-4 : 1e-5); break;
         case TOR: fn = "tor.nearest"; s.a = v[0]; s.b = v[1]; p = V(v, 2); geo.reset(new ContactGeometry::Torus(s.a, s.b)); break;
         case BOX: fn = "box.nearest"; s.a = v[0]; s.b = v[1]; s.c = v[2]; p = V(v, 3); break;
         }
         vh::Line in = vh::I(fn); in.s(cls); for (double x : v) in.d(x); in.emit();
-        if (k == ELL) tol(1e-6, 1e-7);
+        if (k == ELL) {   // comparison tolerance follows the conditioning of the largest root (see surfTol)
+            if (cls == "generic") tol(1e-8, 1e-9); else if (cls.find("radii") != std::string::npos) tol(1e-3, 1e-4); else tol(1e-4, 1e-5); }
         if (k == BOX) {
             Geo::Box box(Vec3(s.a, s.b, s.c)); bool insb;
             pt = box.findClosestPointOnSurface(p, inside);
@@ -275,10 +281,12 @@ static void caseNearest(Kind k, const std::string& cls, const std::vector<double
             vh::Line o = vh::O(fn); v3(o, pt).emit();
             haveFlag = haveNormal = false;
             // the property demands an inside flag matching the sign of f and a unit normal: evaluate on what came back
-            if (std::abs(s.f(p)) > 1e-9 * s.scale())
+            // (only in the dedicated class "any_input" of the degenerate stream: it fails for every input, finding F10)
+            if (cls == "any_input") {
                 vh::P("inside_flag", key(s, "findNearestPoint", cls, "inside_flag"),
                       (in1 == (s.f(p) > 0) && in2 == (s.f(p) > 0)) ? 0 : 1, 0);
-            vh::P("unit_normal", key(s, "findNearestPoint", cls, "unit_normal"), finite3(Vec3(n1)) ? std::abs(Vec3(n1).norm() - 1) : NAN, 1e-12);
+                vh::P("unit_normal", key(s, "findNearestPoint", cls, "unit_normal"), finite3(Vec3(n1)) ? std::abs(Vec3(n1).norm() - 1) : NAN, 1e-12);
+            }
         } else {
             pt = geo->findNearestPoint(p, inside, n);
             vh::Line o = vh::O(fn); v3(o, pt).i(inside); v3(o, Vec3(n)).emit();
@@ -436,11 +444,38 @@ static void caseHeightMap(const std::string& cls, const std::vector<double>& v) 
     std::vector<double> hv(v.begin(), v.begin() + 8); vh::Rng gg(hashDoubles(hv, 37)); double worst = -INFINITY;
     for (int i = 0; i < 1500; ++i) { double x = gg.range(-2.5, 2.5), y = gg.range(-2.5, 2.5); worst = std::max(worst, (Vec3(x, y, surf.calcValue(Vec2(x, y), hint)) - ctr).norm() - rad); }
     vh::P("bounding_contains", K("getBoundingSphere", "contains"), worst, 1e-12);
-    // nearest point query: the property lists the height map; evaluate what comes back
-    bool inside = false; UnitVec3 n(Vec3(NaN), true);
-    Vec3 pt = hm.findNearestPoint(p, inside, n);
-    vh::P("on_surface", K("findNearestPoint", "on_surface"),
-          finite3(pt) ? std::abs(surf.calcValue(Vec2(pt[0], pt[1]), hint) - pt[2]) : NAN, 1e-9);
+    // nearest point / ray queries: the property lists the height map; evaluate what comes back (class "any_input"
+    // of the degenerate stream only: SmoothHeightMap::findNearestPoint / intersectsRay are stubs, finding F11)
+    if (cls == "any_input") {
+        bool inside = false; UnitVec3 n(Vec3(NaN), true);
+        Vec3 pt = hm.findNearestPoint(p, inside, n);
+        vh::P("on_surface", K("findNearestPoint", "on_surface"),
+              finite3(pt) ? std::abs(surf.calcValue(Vec2(pt[0], pt[1]), hint) - pt[2]) : NAN, 1e-9);
+        // a ray straight down from above the surface must hit it at distance (origin.z - height)
+        Vec3 o(p[0], p[1], 5.0); double dist = NaN; UnitVec3 rn(Vec3(NaN), true);
+        bool hit = hm.intersectsRay(o, UnitVec3(Vec3(0, 0, -1), true), dist, rn);
+        vh::P("ray_first_hit", K("intersectsRay", "first_hit"), (hit && std::isfinite(dist)) ? std::abs(dist - (5.0 - z)) : NAN, 1e-9);
+    }
+}
+
+// ---- ContactGeometry::Brick::findNearestPoint (the property names the brick among the shapes): predicates only
+static void caseBrickStub(const std::string& cls, const std::vector<double>& v) {
+    Sh s{BOX, v[0], v[1], v[2]}; Vec3 p = V(v, 3);
+    vh::Line in = vh::I("p.brick"); in.s(cls); for (double x : v) in.d(x); in.emit();
+    std::puts("O p.brick -");
+    vh::D("p.brick." + cls);
+    ContactGeometry::Brick br(Vec3(s.a, s.b, s.c));
+    bool inside = false; UnitVec3 n(Vec3(NaN), true); Vec3 pt(NaN); bool threw = false;
+    try { pt = br.findNearestPoint(p, inside, n); } catch (const std::exception&) { threw = true; }
+    if (threw) { vh::D("unimplemented.Brick.findNearestPoint.throws"); vh::P("returns_point", key(s, "findNearestPoint", cls, "not_implemented_exception"), 1, 0); }
+    else nearestPredicates(s, nullptr, cls, p, pt, true, inside, true, Vec3(n), 1e-10);
+    // ray queries of shapes the code declares unimplemented (loud): recorded as observations only
+    double dist; threw = false;
+    try { br.intersectsRay(Vec3(2 * s.a, 0, 0), UnitVec3(Vec3(-1, 0, 0), true), dist, n); } catch (const std::exception&) { threw = true; }
+    if (threw) vh::D("unimplemented.Brick.intersectsRay.throws");
+    ContactGeometry::Torus tor(2, 0.5); threw = false;
+    try { tor.intersectsRay(Vec3(5, 0, 0), UnitVec3(Vec3(-1, 0, 0), true), dist, n); } catch (const std::exception&) { threw = true; }
+    if (threw) vh::D("unimplemented.Torus.intersectsRay.throws");
 }
 
 // ================================================================================================= generators
@@ -582,8 +617,11 @@ static void degenerate(vh::Rng& g, long n) {
         caseSupport(BOX, "axis_direction", {h[0], h[1], h[2], 0, 1, 0});
         caseSupport(SPH, "axis_direction", {r, 0, 0, -1});
         // ---- height map on the boundary of its domain
+        // ---- queries that fail for every input (unimplemented or partially implemented): one witness each
+        caseNearest(TOR, "any_input", {R, tr, R + 2 * tr, 0.3, 0.2});
         std::vector<double> hv; for (int i = 0; i < 36; ++i) hv.push_back(g.range(-0.5, 0.5));
-        caseHeightMap("domain_corner", cat(hv, Vec3(-2.5, -2.5, 0.1)));
+        caseHeightMap("any_input", cat(hv, Vec3(0.3, -0.7, 0.9)));
+        caseBrickStub("any_input", {h[0], h[1], h[2], 2 * h[0], 0.1, 0.2});
     }
 }
 
@@ -600,6 +638,7 @@ static void replay() {
         std::string op = fn.substr(fn.find('.') + 1);
         if (fn == "consts") caseConsts();
         else if (fn == "p.hmap") caseHeightMap(cls, v);
+        else if (fn == "p.brick") caseBrickStub(cls, v);
         else if (fn == "ell.dir") caseEllDir(cls, v);
         else if (op == "nearest") caseNearest(kindOf(fn), cls, v);
         else if (op == "val") caseVal(kindOf(fn), cls, v);
